@@ -36,10 +36,11 @@ public:
     /// \param f Already opened fstream file with write access
     /// \param groupIdx Index of the group that this particular parameter is in
     /// \param dataStartPosition The position in the file where the data start (special case for POINT:DATA_START parameter)
+    /// \param isInPointGroup If the parameter belongs to the POINT group (DATA_START is special in that group only)
     ///
     /// Write the actual parameter and its values to a file
     ///
-    void write(std::fstream &f, int groupIdx, std::streampos &dataStartPosition) const;
+    void write(std::fstream &f, int groupIdx, std::streampos &dataStartPosition, bool isInPointGroup = true) const;
 
 protected:
     ///
